@@ -127,6 +127,8 @@ class DictModel(object):
             return state, "KeyError"
         if op[0] == "keys":
             return state, tuple(sorted(d))
+        if op[0] == "set_bad":
+            return state, "refused"
         raise ValueError(op)
 
 
@@ -391,7 +393,7 @@ def run_vdb(ch, seed, v, probes):
                 break
             total += 1
             kind = ["set", "get", "has", "del", "keys", "get", "set",
-                    "get"][ch.draw(8, "v.kind")]
+                    "get", "set_bad"][ch.draw(9, "v.kind")]
             # most operations meet on one user
             u = users[[0, 0, 1, 2][ch.draw(4, "v.user")]]
             if kind == "set":
@@ -400,6 +402,10 @@ def run_vdb(ch, seed, v, probes):
                 entries[val] = (23 + val, 2, bytearray(b"salt%d" % val),
                                 1000 + val)
                 ops.append(("set", u, val))
+            elif kind == "set_bad":
+                # a store the database has to refuse (user name too long /
+                # entry of the wrong shape); it must leave the object usable
+                ops.append(("set_bad", ch.draw(2, "v.badkind")))
             elif kind == "keys":
                 ops.append(("keys",))
             else:
@@ -418,6 +424,16 @@ def run_vdb(ch, seed, v, probes):
                     elif op[0] == "get":
                         e = db[op[1]]
                         r = e[3] - 1000
+                    elif op[0] == "set_bad":
+                        try:
+                            if op[1] == 0:
+                                db["u" * 256] = entries[min(entries)] \
+                                    if entries else (1, 2, bytearray(b"s"), 3)
+                            else:
+                                db["mallory"] = (1, 2)
+                            r = "accepted"
+                        except (ValueError, TypeError):
+                            r = "refused"
                     elif op[0] == "has":
                         r = op[1] in db
                     elif op[0] == "del":
